@@ -17,7 +17,10 @@ VARIABLES l, bad, skipb
 TraceLog == ndJsonDeserialize(IOEnv.TRACE)
 
 KOf(arg) == KindOf(arg.kind, arg.m, IF arg.m = 3 THEN 3 ELSE 4)
-GuardsOK(ev) == "guards" \in DOMAIN ev.obs => ev.obs.guards = 1
+\* guard bytes around the output space intact; the library decoder run on the
+\* finished frame kept its guards and changed bytes below its read position only
+GuardsOK(ev) == /\ "guards" \in DOMAIN ev.obs => ev.obs.guards = 1
+                /\ "dec_guards" \in DOMAIN ev.obs => (ev.obs.dec_guards = 1 /\ ev.obs.dec_margin < 0)
 
 \* term (must = FALSE) / fin (must = TRUE: the driver offers what is left and grows on request)
 FinishOK(ev, must) ==
